@@ -250,7 +250,7 @@ type c15Dlg struct {
 }
 
 func c15Lab(t *testing.T, variant stdVariant, engine string) {
-	V.Require("lab: BYE answered dissolves the pin", "lab: NOTIFY terminated dissolves the pin", "lab: NOTIFY active keeps the pin", "lab: probe before expiry", "lab: probe after expiry", "lab: Expires extends the lifetime")
+	V.Require("lab: a refused re-INVITE leaves the pin in place", "lab: BYE answered dissolves the pin", "lab: NOTIFY terminated dissolves the pin", "lab: NOTIFY active keeps the pin", "lab: probe before expiry", "lab: probe after expiry", "lab: Expires extends the lifetime")
 	svc, err := newStdSvc(variant)
 	if err != nil {
 		V.HarnessError(t, "cannot start %s instance: %v", engine, err)
@@ -396,7 +396,26 @@ func c15Lab(t *testing.T, variant stdVariant, engine string) {
 			return stuck, before, after, err
 		}
 		for i := 0; i < steps; i++ {
-			switch rapid.IntRange(0, 3).Draw(rt, "op") {
+			switch rapid.IntRange(0, 4).Draw(rt, "op") {
+			case 4: // a re-INVITE the backend refuses: the dialog - and its pin - live on
+				stuck, _, _, err := probe(d, "INVITE", "")
+				if err != nil {
+					failf(rt, "%v\nhistory: %v", err, hist)
+				}
+				code := rapid.SampledFrom([]int{488, 491, 401, 407, 422, 486, 500, 603}).Draw(rt, "re-INVITE refused with")
+				hist = append(hist, fmt.Sprintf("re-INVITE (reached pinned backend: %v), refused with %d", stuck, code))
+				if !dontCare && stuck != expectPinned {
+					failf(rt, "in-dialog INVITE reached the pinned backend: %v, expected %v\nhistory: %v", stuck, expectPinned, hist)
+				}
+				if stuck && expectPinned {
+					if err := answerWith(s, l, d, code, "INVITE"); err != nil {
+						if lost(err) {
+							failf(rt, "%v", err)
+						}
+						V.HarnessError(rt, "%v", err)
+					}
+					V.Class("lab: a refused re-INVITE leaves the pin in place")
+				}
 			case 0: // BYE answered by the backend with any final status
 				code := gFinalStatus(rt, "bye status")
 				stuck, _, _, err := probe(d, "BYE", "")
@@ -622,8 +641,13 @@ func c15Lab(t *testing.T, variant stdVariant, engine string) {
 
 // answerBye lets the pinned backend answer the BYE it received last.
 func answerBye(s *stdSvc, l labListenCfg, d *c15Dlg, code int) error {
-	resp := []byte(fmt.Sprintf("SIP/2.0 %d Bye\r\nVia: SIP/2.0/UDP %s:%d;branch=z9hG4bK%s\r\nVia: SIP/2.0/UDP %s:5060;branch=z9hG4bKx;rport=5060;received=%s\r\nFrom: <sip:a@a.example>;tag=f%s\r\nTo: <sip:b@nomatch.example>;tag=t%s\r\nCall-ID: %s\r\nCSeq: 1 BYE\r\nContent-Length: 0\r\n\r\n",
-		code, l.Addr, l.UDPPort, s.nextID("c15p"), s.uas[0].ip, s.uas[0].ip, d.id, d.id, d.callID))
+	return answerWith(s, l, d, code, "BYE")
+}
+
+// answerWith: the pinned backend answers an in-dialog request of the given method.
+func answerWith(s *stdSvc, l labListenCfg, d *c15Dlg, code int, method string) error {
+	resp := []byte(fmt.Sprintf("SIP/2.0 %d Answer\r\nVia: SIP/2.0/UDP %s:%d;branch=z9hG4bK%s\r\nVia: SIP/2.0/UDP %s:5060;branch=z9hG4bKx;rport=5060;received=%s\r\nFrom: <sip:a@a.example>;tag=f%s\r\nTo: <sip:b@nomatch.example>;tag=t%s\r\nCall-ID: %s\r\nCSeq: 1 %s\r\nContent-Length: 0\r\n\r\n",
+		code, l.Addr, l.UDPPort, s.nextID("c15p"), s.uas[0].ip, s.uas[0].ip, d.id, d.id, d.callID, method))
 	ep := d.at.ep
 	bsend := func(b []byte) error { return ep.sendUDP(l.Addr, l.UDPPort, b) }
 	s.in.expect(resp)
